@@ -1,9 +1,10 @@
 """C10 — reference creation is the inverse of reference resolution."""
-import json
+import json, os
 import lib, uris
 from lib import enc, enc_s, dec, show
 
 PID = "C10"
+FAMILY = set()
 
 def gen(chk, mdl):
     q = chk.tier == "quick"
@@ -16,13 +17,15 @@ def gen(chk, mdl):
     # registered name or IPvFuture literal, user info, port (the authority comparison must see all of them)
     fam = ["s://10.0.0.1", "s://10.0.0.2", "s://10.0.3.1", "s://10.4.0.1", "s://5.0.0.1",
            "s://[2001:db8:0:1::10]", "s://[2001:db8:0:1::20]", "s://[2001:db8:0:1:0:0:1:10]", "s://[2001:db8:0:2::10]", "s://[2002:db8:0:1::10]", "s://[::ffff:1.2.3.4]", "s://[::ffff:1.2.3.5]",
-           "s://[v1.abc]", "s://[v1.abd]", "s://[v2.abc]", "s://hostname", "s://hostnamf", "s://iostname", "s://u@hostname", "s://v@hostname", "s://hostname:80", "s://hostname:81"]
+           "s://[v1.abc]", "s://[v1.abd]", "s://[v2.abc]", "s://v1.abc", "s://V1.ABC", "s://u@v1.abc", "s://u@[v1.abc]", "s://hostname", "s://hostnamf", "s://iostname", "s://u@hostname", "s://v@hostname", "s://hostname:80", "s://hostname:81"]
     for h in fam:
         for pth in ("/app/index.html", "/app/login", ""):
             srcs.append(h + pth); bases.append(h + pth)
     # dot segments in source and base (the property quantifies over all absolute URIs, not only normalised ones)
     dotted = uris.valid_texts(mdl, uris.small_texts(3, alphabet=["a", ".", "..", "b"], auths=("//h",), schemes=("s",), queries=(None,)))
     srcs += dotted; bases += dotted
+    global FAMILY
+    FAMILY = set(h + pth for h in fam for pth in ("/app/index.html", "/app/login", ""))
     return sorted(set(srcs)), sorted(set(bases))
 
 def norm_text(t):
@@ -30,13 +33,17 @@ def norm_text(t):
     return t
 
 def run(chk):
-    proofs = lib.check_proofs(PID)
+    extra = tuple(x for x in ("C10text",) if os.path.exists(os.path.join(lib.COQ, "Props", x + ".v")))
+    proofs = lib.check_proofs(PID, extra_props=extra)
     exes = lib.build_impl(); mdl = lib.build_model()
     fnd = lib.Findings(PID)
     srcs, bases = gen(chk, mdl)
     H = uris.hist
     trip = [(s, b, m) for b in bases for s in srcs for m in (0, 1)]
-    if chk.tier == "quick" and len(trip) > 90000: trip = chk.rng.sample(trip, 90000)
+    if chk.tier == "quick" and len(trip) > 90000:
+        # the authority family (hosts that differ in one place, a registered name spelled like a literal) is always kept whole
+        fam_trip = [t for t in trip if t[0] in FAMILY and t[1] in FAMILY]
+        trip = chk.rng.sample(trip, 90000) + fam_trip
     # slot 0 = S, 1 = B, 2 = reference, 3 = resolved back; then dot-normalize (mask PATH) slot 3 and a copy of S (slot 4)
     reqs = [H([('p', 0, s), ('p', 1, b), ('r', 2, 0, 1, m), ('a', 3, 2, 1, 0), ('n', 3, 8), ('p', 4, s), ('n', 4, 8), ('e', 3, 4)]) for s, b, m in trip]
     # source and base as two views of ONE buffer (same first pointer, the shorter ending inside a component of the longer):
